@@ -4,6 +4,9 @@ R06.1 fallback tables of the trait default methods and of the in-tree implementa
 R06.2 construction of the remapper tables: `from` side only in keys, `to` side only in values
 R06.3 member lookup order: own table, then super classes in provider order, first answer wins
 R06.4 the descriptor scanner `map_desc`
+R06.5 who may construct a Namespace<N> (tuple constructor called, used as a function value, `Self(..)`, struct literal)
+R06.6 the jar-derived super-class provider
+R06.7 completeness of the remapper tables: every entry of the source map that has both names gets an entry
 """
 import json
 import os
@@ -21,6 +24,10 @@ CLAIM = {
             "methods / super-class providers / first_to_second shortcuts are the documented table look-ups (9). Mappings::remapper_a / remapper_b fill their "
             "tables with keys built only from names[from] and values only from names[to]; member descriptors are translated "
             "with remapper_a(first namespace -> from) on the key side and (first namespace -> to) on the value side (14 positions). "
+            "Each of the four tables (remapper_a.classes, remapper_b.classes / fields / methods) is complete: between the creation of the "
+            "table and the insert that fills it there is exactly one loop, over every entry of the source map (no filter/skip/take "
+            "adaptor), the insert is conditional only on the presence of the element's names in `from` and `to` (if let / let-else / "
+            "match arm / is_some / is_none / `?` in a filter_map closure), and nothing but an error leaves the loop early (12 instances). "
             "BRemapperImpl::map_field_fail / map_method_fail look in the owner's own table first, then iterate the provider's "
             "super-class set in its own order, recursing with unchanged name/descriptor and returning at the first answer, "
             "else None; the search must not depend on the own lookup or on the owner having an entry; the stored key TupleKey and "
@@ -35,7 +42,8 @@ CLAIM = {
             "Trusted: rustc HIR/typeck; spec/quill_remapper.json (transcribed from the doc comments).",
     "technique": "static analysis: normal-form term extraction (let/pattern inlining, transparent borrows/`?`/Some/Ok) compared "
                  "with reference terms; provenance separation of insert positions; guard dominance (path conditions) and "
-                 "evaluation order of returns in the search functions",
+                 "evaluation order of returns in the search functions; path-condition classification (presence-only) and exit "
+                 "accounting of the table-filling loops",
 }
 
 
@@ -52,7 +60,8 @@ def run(F, R, tier):
     r06_6(F, R)
     return ("normal forms of the 11 default methods and 7 implementation methods vs. spec/quill_remapper.json; override scan over "
             "all workspace impls of ARemapper/BRemapper; key/value terms of every insert in remapper_a/remapper_b; "
-            "return/loop structure of map_field_fail, map_method_fail and Vec<S>::get_super_classes; scanner structure of map_desc")
+            "return/loop structure of map_field_fail, map_method_fail and Vec<S>::get_super_classes; scanner structure of map_desc; "
+            "loop source, path conditions and early exits of the insert of each remapper table (R06.7)")
 
 
 # ------------------------------------------------------------------------------------ R06.1
@@ -494,7 +503,7 @@ class _Presence:
         if kind == "arm":
             arm = node["arms"][extra]
             # first-match semantics: the earlier arms must be disjoint from the all-`Some` arm (each names a `None`)
-            earlier = all("None" in self.nz._pat_key(a["pat"])[0] and "guard" not in a for a in node["arms"][:extra])
+            earlier = all("guard" not in a and all("None" in alt for alt in self.nz._pat_key(a["pat"])[0].split("|")) for a in node["arms"][:extra])
             return "guard" not in arm and earlier and self.all_some(arm["pat"]) and self.terms(self.nz.term(node["scrut"]))
         return False
 
@@ -542,7 +551,7 @@ def _exits(R, rid, what, nz, scope, point, conds, loop_like, skip_word):
                 bad.append("`%s` inside the element closure" % k)
                 continue
             # `return ..` inside the element closure = skip (None) or a different entry
-        if any(c["exit"] is not None and any(y is x for y in H.walk(c["exit"])) for c in conds):
+        if any(any(y is x for blk in (c["exit"] or []) for y in H.walk(blk)) for c in conds):
             continue                        # `if c { continue }` / `let .. else { continue }`: judged as a condition
         if order.get(id(x), 0) > order.get(id(point), 0) or U.exclusive_branches(scope, x, point):
             continue                        # after the entry was made, or in a branch the entry is not in
@@ -590,7 +599,9 @@ def _complete_loop(R, rid, what, b, nz, lid, sources, present):
         it, scope, loop_like, word = elemwise[0]["recv"], H.peel(elemwise[0]["args"][0])["body"], False, "return"
     itt = nz.term(it)
     allc = U.path_conditions_ex(root, point)
-    conds = [c for c in allc if any(c["owner"] is p for p in between) or any(c["owner"] is x for p in between if p.get("k") == "block" for x in map(lambda s_: H.peel(s_, refs=False), p["stmts"]))]
+    # conditions that arise below the block in which the table is created (an `if` / `match` on the way down, or a statement of a block on the way down)
+    inner_stmts = [H.peel(st, refs=False) for p in between if p.get("k") == "block" for st in p["stmts"]]
+    conds = [c for c in allc if any(c["owner"] is p for p in between) or any(c["owner"] is x for x in inner_stmts)]
     extra = [P.show(c) for c in conds if not P.cond(c)]
     bad = _exits(R, rid, what, nz, scope, point, conds, loop_like, word)
     _report(R, rid, what, point.get("sp"), itt in sources, U.show(itt), sources, extra, bad)
